@@ -59,8 +59,10 @@ type LintConfig struct {
 
 // Lint lints file
 func Lint(stream io.Reader, lc LintConfig) error {
+	errorsFound := false
 	err := parser.ParseStreamCallback(stream, lc.ParserConfig, func(node *shared.ParserNode, err error) (stop bool, cbError error) {
 		if err != nil {
+			errorsFound = true
 			if _, writeErr := fmt.Fprintln(lc.ReporterConfig.Output, err); writeErr != nil {
 				return true, writeErr
 			}
@@ -70,7 +72,7 @@ func Lint(stream io.Reader, lc LintConfig) error {
 	if err != nil {
 		return err
 	}
-	if !lc.Silent {
+	if !lc.Silent && !errorsFound {
 		if _, err = fmt.Fprintln(lc.ReporterConfig.Output, "No errors found"); err != nil {
 			return err
 		}
